@@ -374,9 +374,9 @@ pub fn property() -> Property {
         rule: "a case = one generated layout (1..5 sorted disjoint regions, sizes 1..24 bytes or page-sized, gaps 0/1/small/huge, anchored at 0, mid-range, 2^32, 2^63, the top, or split between bottom and top) + every address of the span +-3 swept with all point/range/offset queries when the span is <= 256 addresses + 4..24 generated queries (addresses near region boundaries and extremes, lengths/offsets incl. 0 and usize::MAX); subjects: GuestMemoryMmap and a mock GuestMemory using only the trait's default methods (may own the last address 2^64-1); non-trivial = a query within 1 of a region boundary, a range touching >=2 regions or a hole, or an overflowing offset/length; distinct = decoded (layout, queries)",
         assumptions: &["oracle: interval-set model over u128", "don't-care (counted, not asserted): check_range/get_slice with length 0 at an unmapped base"],
         subchecks: vec![
-            SubCheck { name: "mmap", builds: &[Build::Std], kind: Kind::Random { quick: 6_000, thorough: 400_000, max_words: 160 }, run: run_mmap },
+            SubCheck { name: "mmap", builds: &[Build::Std, Build::Xen], kind: Kind::Random { quick: 6_000, thorough: 400_000, max_words: 160 }, run: run_mmap },
             SubCheck { name: "mock", builds: &[Build::Std], kind: Kind::Random { quick: 6_000, thorough: 400_000, max_words: 160 }, run: run_mock },
-            SubCheck { name: "tiny_universes", builds: &[Build::Std], kind: Kind::Exhaustive { gen: gen_tiny }, run: run_tiny },
+            SubCheck { name: "tiny_universes", builds: &[Build::Std, Build::Xen], kind: Kind::Exhaustive { gen: gen_tiny }, run: run_tiny },
             SubCheck { name: "regress", builds: &[Build::Std], kind: Kind::Exhaustive { gen: gen_regress }, run: run_regress },
         ],
     }
